@@ -95,10 +95,20 @@ return cls(stack_items_added=1)'''},
 return cls(stack_items_added=1)'''},
     'LSR': {'ok': '''execute_shift(cls.prim, stack, stdout, lambda x: x[0] >> x[1])
 return cls(stack_items_added=1)'''},
-    'NEG': {'ok': '''a = stack.pop1()
+    'NEG': {
+        # the result class is `int` for both modelled rows, so the two spellings agree there; they differ for bls12_381_fr
+        'intFromValue': '''a = stack.pop1()
 res_type, = dispatch_types(type(a), mapping=MAPPING)
 if issubclass(res_type, IntType):
     res = IntType.from_value(-int(a))
+else:
+    res = res_type.from_point(bls12_381.neg(a.to_point()))
+stack.push(res)
+return cls(stack_items_added=1)''',
+        'resTypeFromValue': '''a = stack.pop1()
+res_type, = dispatch_types(type(a), mapping=MAPPING)
+if issubclass(res_type, IntType):
+    res = res_type.from_value(-int(a))
 else:
     res = res_type.from_point(bls12_381.neg(a.to_point()))
 stack.push(res)
